@@ -530,7 +530,8 @@ WRONG_POSTS = [
     ("schedule_set: p3 kept", _wrong(_WrongSet), "post.WRONG_p3_of_the_set_kept"),
 ]
 MUTANTS = [
-    (CT.TDMA, "% ARRAY_SIZE(l1s.tdma_sched.bucket);", "% (ARRAY_SIZE(l1s.tdma_sched.bucket) - 1);", "wrap_bucket_post"),
+    # wrap_bucket is a static helper (Contract.helper): its failing contract becomes a violation through the statement-level oracle
+    (CT.TDMA, "% ARRAY_SIZE(l1s.tdma_sched.bucket);", "% (ARRAY_SIZE(l1s.tdma_sched.bucket) - 1);", "bounded-native-oracle_execute"),
     # an internal helper (leading underscore): engine/cli.py lets only the statement-level oracle turn its failing contract into a violation
     (CT.TDMA, "if (item_i->prio > item_j->prio)", "if (item_i->prio < item_j->prio)", "bounded-native-oracle_execute"),
     (CT.TDMA, "\t/* clear/reset the bucket */\n\tbucket->num_items = 0;", "\t/* clear/reset the bucket */\n", "tdma_sched_execute_post.current_list_emptied"),
